@@ -15,19 +15,20 @@ COMMON_ASSUME = [
 ]
 
 PROPS = {
-    "C01": dict(monitor="C01", proj="C01", cfgs=ALL3, quick=900, thorough=12000,
+    "C01": dict(monitor="C01", proj="C01", modules=["C01", "C01seq"], cfgs=ALL3, quick=900, thorough=12000,
                 gens=[(ALL_FIXED, "random", 1.0), (GROUPS, "random", 0.4), (CONC, "stuck", 0.3),
-                      (["join", "try_join", "merge", "zip", "race", "chain"], "big", 0.05)],
+                      (["join", "try_join", "merge", "zip", "race", "chain"], "big", 0.05),
+                      (["join", "try_join", "merge", "zip"], "waves", 0.08)],
                 assumptions=COMMON_ASSUME),
-    "C02": dict(monitor="C02", proj="C02", modules=["C02a", "C02b"], cfgs=ALL3, quick=900, thorough=12000,
+    "C02": dict(monitor="C02", proj="C02", modules=["C02a", "C02b", "C02g"], cfgs=ALL3, quick=900, thorough=12000,
                 gens=[(ALL_FIXED, "random", 1.0), (GROUPS, "random", 0.4), (ALL_FIXED + GROUPS, "panic", 0.5),
                       (["join", "try_join", "race_ok", "zip"], "big", 0.05)],
                 assumptions=COMMON_ASSUME + ["memory effects of unsafe code are outside the model; the model "
                                              "shows the bookkeeping never asks for a second drop"]),
-    "C03": dict(monitor="C03", proj="C03", cfgs=ALL3, quick=900, thorough=12000,
+    "C03": dict(monitor="C03", proj="C03", modules=["C03", "C03g"], cfgs=ALL3, quick=900, thorough=12000,
                 gens=[(ALL_FIXED, "random", 1.0), (GROUPS, "random", 0.5), (CONC, "stuck", 0.2)],
                 assumptions=COMMON_ASSUME),
-    "C16": dict(monitor="C16", proj="C16", cfgs=["std"], quick=2500, thorough=30000,
+    "C16": dict(monitor="C16", proj="C16", modules=["C16", "C16g"], cfgs=["std"], quick=2500, thorough=30000,
                 gens=[(TRACKED, "random", 1.0), (GROUPS, "random", 0.5), (TRACKED, "stuck", 0.3),
                       (["join", "try_join", "merge", "zip"], "big", 0.05)],
                 assumptions=COMMON_ASSUME),
@@ -36,11 +37,11 @@ PROPS = {
                 assumptions=COMMON_ASSUME),
     "C04": dict(monitor="C04", proj="FUN", cfgs=ALL3, quick=1500, thorough=20000,
                 gens=[(["join"], "random", 1.0), (["join"], "stuck", 0.3), (["join"], "panic", 0.2),
-                      (["join"], "big", 0.08)],
+                      (["join"], "big", 0.08), (["join"], "waves", 0.25)],
                 assumptions=COMMON_ASSUME),
     "C05": dict(monitors=["C05", "C02"], monitor="C05", proj="FUN+C02", modules=["C05", "C02a"], cfgs=ALL3, quick=1500, thorough=20000,
                 gens=[(["try_join"], "random", 1.0), (["try_join"], "errs", 0.6), (["try_join"], "stuck", 0.2),
-                      (["try_join"], "panic", 0.2), (["try_join"], "big", 0.08)],
+                      (["try_join"], "panic", 0.2), (["try_join"], "big", 0.08), (["try_join"], "waves", 0.2)],
                 assumptions=COMMON_ASSUME),
     "C06": dict(monitor="C06", proj="C03", cfgs=ALL3, quick=1500, thorough=20000,
                 gens=[(["race"], "random", 1.0), (["race"], "stuck", 0.4), (["race"], "panic", 0.2),
@@ -49,7 +50,7 @@ PROPS = {
                                              "Indexer::iter); the generator uses n >= 1"]),
     "C07": dict(monitor="C07", proj="FUN", cfgs=ALL3, quick=1500, thorough=20000,
                 gens=[(["race_ok"], "random", 1.0), (["race_ok"], "errs", 0.8), (["race_ok"], "stuck", 0.2),
-                      (["race_ok"], "panic", 0.2), (["race_ok"], "big", 0.08)],
+                      (["race_ok"], "panic", 0.2), (["race_ok"], "big", 0.08), (["race_ok"], "waves", 0.2)],
                 assumptions=COMMON_ASSUME),
     "C19": dict(monitor="C19", proj="FUN", cfgs=ALL3, quick=1500, thorough=20000,
                 gens=[(["wait_f", "wait_s"], "random", 1.0), (["wait_f", "wait_s"], "stuck", 0.3),
@@ -58,11 +59,11 @@ PROPS = {
                                              "resolves, a stream only yields/ends - enforced by Rust's types"]),
     "C08": dict(monitor="C08", proj="FUN", cfgs=ALL3, quick=2500, thorough=30000,
                 gens=[(["merge"], "random", 1.0), (["merge"], "fair", 0.4), (["merge"], "stuck", 0.2),
-                      (["merge"], "panic", 0.2), (["merge"], "big", 0.08)],
+                      (["merge"], "panic", 0.2), (["merge"], "big", 0.08), (["merge"], "waves", 0.1)],
                 assumptions=COMMON_ASSUME),
     "C09": dict(monitors=["C09", "C02"], monitor="C09", proj="FUN+C02", modules=["C09", "C02a"], cfgs=ALL3, quick=2500, thorough=30000,
                 gens=[(["zip"], "random", 1.0), (["zip"], "fair", 0.4), (["zip"], "stuck", 0.2),
-                      (["zip"], "panic", 0.2), (["zip"], "big", 0.08)],
+                      (["zip"], "panic", 0.2), (["zip"], "big", 0.08), (["zip"], "waves", 0.1)],
                 assumptions=COMMON_ASSUME + ["zip over zero inputs is outside C09"]),
     "C10": dict(monitors=["C10", "C03"], monitor="C10", proj="FUN", cfgs=ALL3, quick=2500, thorough=30000,
                 gens=[(["chain"], "random", 1.0), (["chain"], "fair", 0.4), (["chain"], "stuck", 0.2),
@@ -71,4 +72,14 @@ PROPS = {
     "C17": dict(monitor="C17", proj="FUN", cfgs=ALL3, quick=2500, thorough=30000,
                 gens=[(["merge"], "fair", 1.0), (["merge"], "random", 0.5), (["merge"], "stuck", 0.2)],
                 assumptions=COMMON_ASSUME),
+    "C11": dict(monitor="C11", proj="GRP", cfgs=["std", "alloc"], quick=3000, thorough=40000,
+                gens=[(["fgroup"], "random", 1.0), (["fgroup"], "big", 0.5), (["fgroup"], "stuck", 0.3),
+                      (["fgroup"], "panic", 0.2)],
+                assumptions=COMMON_ASSUME + ["every inserted future is a new object (Case.insertsFresh) of the right "
+                                             "kind (Case.kindOk)"]),
+    "C12": dict(monitor="C12", proj="GRP", cfgs=["std", "alloc"], quick=3000, thorough=40000,
+                gens=[(["sgroup"], "random", 1.0), (["sgroup"], "big", 0.5), (["sgroup"], "stuck", 0.3),
+                      (["sgroup"], "panic", 0.2)],
+                assumptions=COMMON_ASSUME + ["every inserted stream is a new object (Case.insertsFresh) of the right "
+                                             "kind (Case.kindOk)"]),
 }
